@@ -572,7 +572,7 @@ def obligations(tier: str):
         obs.append(Chx("s_splice", h_s_splice, timeout=T, fix={"nbmax": 3, "nb": 3}, split={"na": [0, 1, 2, 3], "tb": [0, 1, 2, 3]}))
     # ---------------- layer (ii): exploration under a CPU budget
     nacc = 14  # accessible objects of the subject: d0 % nacc is the one insert_random_statement picks
-    obs.append(Chx("f_insert", h_f_insert, timeout=(20 if q else E), split={"d0": list(range(nacc))}))
+    obs.append(Chx("f_insert", h_f_insert, timeout=(30 if q else E), split={"d0": list(range(nacc))}))
     obs.append(Chx("f_build", h_f_build, timeout=E * 3 // 4, split={"reuse": [0, 1]}))
     obs.append(Chx("f_delete", h_f_delete, timeout=T))
     obs.append(Chx("f_change", h_f_change, timeout=E, split={"op": [0, 1, 2, 3, 4]}))
